@@ -22,6 +22,10 @@ Section G.
   Notation next_is := (next_is tk cl).
   Notation ident := (ident tk cl txt).
   Notation param_out := (param_out tk cl txt).
+  Notation subs_more := (subs_more tk cl).
+  Notation subs := (subs tk cl).
+  Notation sels_loop := (sels_loop tk cl txt).
+  Notation pvariable := (pvariable tk cl txt).
   Notation param_in := (param_in tk cl txt).
   Notation param1 := (param1 tk cl txt).
   Notation params_more := (params_more tk cl txt).
@@ -38,6 +42,7 @@ Section G.
     | SSigned (sg d : tk) (neg : bool)
     | SBool (bt hs v : tk) (b : bool)                      (* BOOL#TRUE / BOOL#FALSE *)
     | SName (t : tk) (w : list tk)
+    | SVar (t : tk) (ss : ssels)                           (* a variable with selectors: a.b, a[i, j].c *)
     | SCall0 (t : tk) (w1 : list tk) (lp : tk) (w2 : list tk) (rp : tk)
     | SCallN (t : tk) (w1 : list tk) (lp : tk) (w2 : list tk) (p : spar) (ps : spars) (w3 : list tk) (rp : tk)
     | SParen (tl : tk) (w1 : list tk) (s : sp) (w2 : list tk) (tr : tk)
@@ -46,15 +51,24 @@ Section G.
   with spar :=
     | SPPos (e : sp)
     | SPNamed (n : tk) (w1 : list tk) (a : tk) (w2 : list tk) (e : sp)
-    | SPOut (ng : option (tk * list tk)) (n : tk) (w1 : list tk) (a : tk) (w2 : list tk) (v : tk)
+    | SPOut (ng : option (tk * list tk)) (n : tk) (w1 : list tk) (a : tk) (w2 : list tk) (v : tk) (vs : ssels)
   with spars :=
     | SPEnd
-    | SPMore (w1 : list tk) (c : tk) (w2 : list tk) (p : spar) (r : spars).
+    | SPMore (w1 : list tk) (c : tk) (w2 : list tk) (p : spar) (r : spars)
+  with ssels :=
+    | SsEnd
+    | SsField (w1 : list tk) (dot : tk) (w2 : list tk) (id : tk) (r : ssels)
+    | SsIndex (w1 : list tk) (lb : tk) (w2 : list tk) (e : sp) (more : sidx) (w3 : list tk) (rb : tk) (r : ssels)
+  with sidx :=
+    | SiEnd
+    | SiMore (w1 : list tk) (c : tk) (w2 : list tk) (e : sp) (r : sidx).
 
   Scheme sp_mut := Induction for sp Sort Prop
   with spar_mut := Induction for spar Sort Prop
-  with spars_mut := Induction for spars Sort Prop.
-  Combined Scheme sp_mutind from sp_mut, spar_mut, spars_mut.
+  with spars_mut := Induction for spars Sort Prop
+  with ssels_mut := Induction for ssels Sort Prop
+  with sidx_mut := Induction for sidx Sort Prop.
+  Combined Scheme sp_mutind from sp_mut, spar_mut, spars_mut, ssels_mut, sidx_mut.
 
   Definition ng_flat (ng : option (tk * list tk)) : list tk :=
     match ng with Some (nt, w) => nt :: w | None => [] end.
@@ -65,6 +79,7 @@ Section G.
     | SSigned sg d _ => [sg; d]
     | SBool bt hs v _ => [bt; hs; v]
     | SName t w => t :: w
+    | SVar t ss => t :: flatss ss
     | SCall0 t w1 lp w2 rp => t :: w1 ++ lp :: w2 ++ [rp]
     | SCallN t w1 lp w2 p ps w3 rp => t :: w1 ++ lp :: w2 ++ flatp p ++ flatps ps ++ w3 ++ [rp]
     | SParen tl w1 s w2 tr => tl :: w1 ++ flat s ++ w2 ++ [tr]
@@ -75,12 +90,23 @@ Section G.
     match p with
     | SPPos e => flat e
     | SPNamed n w1 a w2 e => n :: w1 ++ a :: w2 ++ flat e
-    | SPOut ng n w1 a w2 v => ng_flat ng ++ n :: w1 ++ a :: w2 ++ [v]
+    | SPOut ng n w1 a w2 v vs => ng_flat ng ++ n :: w1 ++ a :: w2 ++ v :: flatss vs
     end
   with flatps (ps : spars) : list tk :=
     match ps with
     | SPEnd => []
     | SPMore w1 c w2 p r => w1 ++ c :: w2 ++ flatp p ++ flatps r
+    end
+  with flatss (ss : ssels) : list tk :=
+    match ss with
+    | SsEnd => []
+    | SsField w1 dot w2 id r => w1 ++ dot :: w2 ++ id :: flatss r
+    | SsIndex w1 lb w2 e more w3 rb r => w1 ++ lb :: w2 ++ flat e ++ flatsi more ++ w3 ++ rb :: flatss r
+    end
+  with flatsi (si : sidx) : list tk :=
+    match si with
+    | SiEnd => []
+    | SiMore w1 c w2 e r => w1 ++ c :: w2 ++ flat e ++ flatsi r
     end.
 
   Fixpoint erase (s : sp) : sexpr :=
@@ -89,6 +115,7 @@ Section G.
     | SSigned _ d neg => XAtom (LfInt neg (num d))
     | SBool _ _ _ b => XAtom (LfBool b)
     | SName t _ => XAtom (LfName (txt t))
+    | SVar t ss => XVar (txt t) (erasess ss)
     | SCall0 t _ _ _ _ => XCall (txt t) []
     | SCallN t _ _ _ p ps _ _ => XCall (txt t) (erasep p :: eraseps ps)
     | SParen _ _ s _ _ => erase s
@@ -99,17 +126,29 @@ Section G.
     match p with
     | SPPos e => PPos (erase e)
     | SPNamed n _ _ _ e => PNamed (txt n) (erase e)
-    | SPOut ng n _ _ _ v => POut (match ng with Some _ => true | None => false end) (txt n) (txt v)
+    | SPOut ng n _ _ _ v vs => POut (match ng with Some _ => true | None => false end) (txt n) (txt v) (erasess vs)
     end
   with eraseps (ps : spars) : list (param sexpr) :=
     match ps with
     | SPEnd => []
     | SPMore _ _ _ p r => erasep p :: eraseps r
+    end
+  with erasess (ss : ssels) : list (sel sexpr) :=
+    match ss with
+    | SsEnd => []
+    | SsField _ _ _ id r => SField (txt id) :: erasess r
+    | SsIndex _ _ _ e more _ _ r => SIndex (erase e :: erasesi more) :: erasess r
+    end
+  with erasesi (si : sidx) : list sexpr :=
+    match si with
+    | SiEnd => []
+    | SiMore _ _ _ e r => erase e :: erasesi r
     end.
 
   Fixpoint size (s : sp) : nat :=
     match s with
     | SConst _ _ | SSigned _ _ _ | SBool _ _ _ _ | SName _ _ => 1
+    | SVar _ ss => 1 + sizess ss
     | SCall0 _ _ _ _ _ => 2
     | SCallN _ _ _ _ p ps _ _ => 2 + sizep p + sizeps ps
     | SParen _ _ s _ _ => 2 + size s
@@ -120,12 +159,23 @@ Section G.
     match p with
     | SPPos e => 1 + size e
     | SPNamed _ _ _ _ e => 1 + size e
-    | SPOut _ _ _ _ _ _ => 1
+    | SPOut _ _ _ _ _ _ vs => 1 + sizess vs
     end
   with sizeps (ps : spars) : nat :=
     match ps with
     | SPEnd => 1
     | SPMore _ _ _ p r => 1 + sizep p + sizeps r
+    end
+  with sizess (ss : ssels) : nat :=
+    match ss with
+    | SsEnd => 1
+    | SsField _ _ _ _ r => 1 + sizess r
+    | SsIndex _ _ _ e more _ _ r => 2 + size e + sizesi more + sizess r
+    end
+  with sizesi (si : sidx) : nat :=
+    match si with
+    | SiEnd => 1
+    | SiMore _ _ _ e r => 2 + size e + sizesi r
     end.
 
   Fixpoint ends_name (s : sp) : bool :=
@@ -136,7 +186,10 @@ Section G.
     | _ => false
     end.
   Definition pends (p : spar) : bool :=
-    match p with SPPos e | SPNamed _ _ _ _ e => ends_name e | SPOut _ _ _ _ _ _ => false end.
+    match p with SPPos e | SPNamed _ _ _ _ e => ends_name e | SPOut _ _ _ _ _ _ _ => false end.
+  Definition idx_lead (si : sidx) (w3 : list tk) : list tk :=
+    match si with SiEnd => w3 | SiMore w1 _ _ _ _ => w1 end.
+  Definition has_sel (ss : ssels) : bool := match ss with SsEnd => false | _ => true end.
   Definition lead (ps : spars) (w3 : list tk) : list tk :=
     match ps with SPEnd => w3 | SPMore w1 _ _ _ _ => w1 end.
 
@@ -151,6 +204,7 @@ Section G.
     | SSigned sg d neg => neg = false /\ cl sg = COp BAdd /\ cl d = CConst CkInt
     | SBool bt hs v b => cl bt = CBoolT /\ cl hs = CHash /\ cl v = CConst (if b then CkTrue else CkFalse)
     | SName t w => cl t = CId /\ all_triv w
+    | SVar t ss => cl t = CId /\ wfss ss /\ has_sel ss = true
     | SCall0 t w1 lp w2 rp => cl t = CId /\ all_triv w1 /\ cl lp = CLP /\ all_triv w2 /\ cl rp = CRP
     | SCallN t w1 lp w2 p ps w3 rp =>
         cl t = CId /\ all_triv w1 /\ cl lp = CLP /\ all_triv w2 /\ wfpar p /\ wfpars w3 ps /\ all_triv w3 /\
@@ -172,15 +226,29 @@ Section G.
     match p with
     | SPPos e => wf 0 e
     | SPNamed n w1 a w2 e => cl n = CId /\ all_triv w1 /\ cl a = CAssign /\ all_triv w2 /\ wf 0 e
-    | SPOut ng n w1 a w2 v =>
+    | SPOut ng n w1 a w2 v vs =>
         match ng with Some (nt, w) => cl nt = CNot /\ all_triv w | None => True end /\
-        cl n = CId /\ all_triv w1 /\ cl a = CArrow /\ all_triv w2 /\ cl v = CId
+        cl n = CId /\ all_triv w1 /\ cl a = CArrow /\ all_triv w2 /\ cl v = CId /\ wfss vs
     end
   with wfpars (w3 : list tk) (ps : spars) : Prop :=
     match ps with
     | SPEnd => True
     | SPMore w1 c w2 p r =>
         all_triv w1 /\ cl c = CComma /\ all_triv w2 /\ wfpar p /\ wfpars w3 r /\ (pends p = true -> lead r w3 = [])
+    end
+  with wfss (ss : ssels) : Prop :=
+    match ss with
+    | SsEnd => True
+    | SsField w1 dot w2 id r => all_triv w1 /\ cl dot = CDot /\ all_triv w2 /\ cl id = CId /\ wfss r
+    | SsIndex w1 lb w2 e more w3 rb r =>
+        all_triv w1 /\ cl lb = CLB /\ all_triv w2 /\ wf 0 e /\ wfsi w3 more /\ all_triv w3 /\ cl rb = CRB /\
+        (ends_name e = true -> idx_lead more w3 = []) /\ wfss r
+    end
+  with wfsi (w3 : list tk) (si : sidx) : Prop :=
+    match si with
+    | SiEnd => True
+    | SiMore w1 c w2 e r =>
+        all_triv w1 /\ cl c = CComma /\ all_triv w2 /\ wf 0 e /\ wfsi w3 r /\ (ends_name e = true -> idx_lead r w3 = [])
     end.
 
   (* a spelling that may stand where a primary expression is expected *)
@@ -197,7 +265,10 @@ Section G.
     | t :: _ => match bop_of t with Some (lv, _) => lv < k | None => True end
     | [] => True
     end.
-  Definition noafter (t : tk) : bool := match cl t with CLP | CSel => true | _ => false end.
+  Definition noafter (t : tk) : bool := match cl t with CLP | CDot | CLB => true | _ => false end.
+  (* after an expression no selector may follow (it would belong to a variable at the expression's end) *)
+  Definition nosel (rest : list tk) : Prop :=
+    match skip rest with t :: _ => match cl t with CDot | CLB => False | _ => True end | [] => True end.
   Definition follow_name (rest : list tk) : Prop :=
     skip rest = rest /\ match rest with t :: _ => noafter t = false | [] => True end.
   Definition follow_ok (s : sp) (rest : list tk) : Prop := ends_name s = true -> follow_name rest.
@@ -244,6 +315,7 @@ Section G.
     - exists sg, (d :: r). split; [reflexivity|]. destruct H as [H _]. eapply solid_of_class; [exact H|]. destruct neg; discriminate.
     - exists bt, (hs :: v :: r). split; [reflexivity|]. destruct H as [H _]. eapply solid_of_class; [exact H | discriminate].
     - exists t, (w ++ r). split; [reflexivity|]. destruct H as [H _]. eapply solid_of_class; [exact H | discriminate].
+    - eexists t, _. split; [cbn [flat app]; reflexivity|]. destruct H as [H _]. eapply solid_of_class; [exact H | discriminate].
     - eexists t, _. split; [cbn; reflexivity|]. destruct H as [H _]. eapply solid_of_class; [exact H | discriminate].
     - eexists t, _. split; [cbn; reflexivity|]. destruct H as [H _]. eapply solid_of_class; [exact H | discriminate].
     - eexists tl, _. split; [cbn; reflexivity|]. destruct H as [H _]. eapply solid_of_class; [exact H | discriminate].
@@ -251,10 +323,11 @@ Section G.
 
   Lemma flat_solid s : forall p r, wf p s -> exists t r', flat s ++ r = t :: r' /\ solid t.
   Proof.
-    induction s as [t k|sg d neg|bt hs v b|t w|t w1 lp w2 rp|t w1 lp w2 p0 ps w3 rp|tl w1 s IH w2 tr|t o w s IH|t o l IHl w1 w2 r IHr];
+    induction s as [t k|sg d neg|bt hs v b|t w|t ss|t w1 lp w2 rp|t w1 lp w2 p0 ps w3 rp|tl w1 s IH w2 tr|t o w s IH|t o l IHl w1 w2 r IHr];
       intros p rest H.
     - apply flat_solid_wfp. exact H.
     - apply flat_solid_wfp. cbn in H. destruct H as (-> & H1 & H2). cbn. tauto.
+    - apply flat_solid_wfp. exact H.
     - apply flat_solid_wfp. exact H.
     - apply flat_solid_wfp. exact H.
     - apply flat_solid_wfp. exact H.
@@ -284,12 +357,18 @@ Section G.
   Lemma head_ident_next s : forall p rest, wf p s -> plain_next rest ->
     match flat s ++ rest with t :: r' => cl t = CId -> plain_next r' | [] => True end.
   Proof.
-    induction s as [t k|sg d neg|bt hs v b|t w|t w1 lp w2 rp|t w1 lp w2 p0 ps w3 rp|tl w1 s IH w2 tr|t o w s IH|t o l IHl w1 w2 r IHr];
+    induction s as [t k|sg d neg|bt hs v b|t w|t ss|t w1 lp w2 rp|t w1 lp w2 p0 ps w3 rp|tl w1 s IH w2 tr|t o w s IH|t o l IHl w1 w2 r IHr];
       intros p rest H Hr; cbn [flat app].
     - cbn in H. intro E. rewrite H in E. discriminate.
     - cbn in H. destruct H as (_ & H & _). intro E. rewrite H in E. discriminate.
     - cbn in H. destruct H as (H & _). intro E. rewrite H in E. discriminate.
     - cbn in H. destruct H as (_ & Hw). intros _. unfold plain_next. rewrite (skip_app_triv w rest Hw). exact Hr.
+    - cbn [wf] in H. destruct H as (_ & Hss & Hsel). intros _. unfold plain_next.
+      destruct ss as [|sw1 dot sw2 id r0|sw1 lb sw2 e0 more sw3 rb r0]; [discriminate Hsel| |]; cbn [flatss wfss] in *.
+      + destruct Hss as (Hw1 & Hdot & _). rewrite <- app_assoc. cbn [app]. rewrite (skip_app_triv sw1 _ Hw1).
+        rewrite skip_solid by (eapply solid_of_class; [exact Hdot | discriminate]). rewrite Hdot. exact I.
+      + destruct Hss as (Hw1 & Hlb & _). rewrite <- app_assoc. cbn [app]. rewrite (skip_app_triv sw1 _ Hw1).
+        rewrite skip_solid by (eapply solid_of_class; [exact Hlb | discriminate]). rewrite Hlb. exact I.
     - cbn in H. destruct H as (_ & Hw1 & Hlp & _). intros _. unfold plain_next. rewrite <- app_assoc. cbn [app].
       rewrite (skip_app_triv w1 _ Hw1). rewrite skip_solid by (eapply solid_of_class; [exact Hlp | discriminate]). rewrite Hlp. exact I.
     - cbn in H. destruct H as (_ & Hw1 & Hlp & _). intros _. unfold plain_next. rewrite <- app_assoc. cbn [app].
@@ -308,10 +387,11 @@ Section G.
     | [] => True
     end.
   Proof.
-    induction s as [t k|sg d neg|bt hs v b|t w|t w1 lp w2 rp|t w1 lp w2 p0 ps w3 rp|tl w1 s IH w2 tr|t o w s IH|t o l IHl w1 w2 r IHr];
+    induction s as [t k|sg d neg|bt hs v b|t w|t ss|t w1 lp w2 rp|t w1 lp w2 p0 ps w3 rp|tl w1 s IH w2 tr|t o w s IH|t o l IHl w1 w2 r IHr];
       intros p rest H Hr; cbn [flat app].
     - cbn in H. intro E. rewrite H in E. discriminate.
     - cbn in H. destruct H as (_ & H & _). intro E. rewrite H in E. discriminate.
+    - cbn in H. destruct H as (H & _). intro E. rewrite H in E. discriminate.
     - cbn in H. destruct H as (H & _). intro E. rewrite H in E. discriminate.
     - cbn in H. destruct H as (H & _). intro E. rewrite H in E. discriminate.
     - cbn in H. destruct H as (H & _). intro E. rewrite H in E. discriminate.
@@ -325,6 +405,7 @@ Section G.
       + cbn. destruct Hs as (Hs & _). intro E. rewrite Hs in E. destruct neg; discriminate.
       + cbn. destruct Hs as (Hs & _). intro E. rewrite Hs in E. discriminate.
       + exact (head_ident_next (SName t0 w0) 0 rest Hs Hr).
+      + exact (head_ident_next (SVar t0 ss) 0 rest Hs Hr).
       + exact (head_ident_next (SCall0 t0 w1 lp w2 rp) 0 rest Hs Hr).
       + exact (head_ident_next (SCallN t0 w1 lp w2 p0 ps w3 rp) 0 rest Hs Hr).
       + cbn. destruct Hs as (Hs & _). intro E. rewrite Hs in E. discriminate.
@@ -335,19 +416,26 @@ Section G.
 
   (* ---- the main induction ---- *)
   Definition PA (s : sp) : Prop :=
-    forall q rest g x, wf q s -> follow_top s rest -> follow_ok s rest ->
+    forall q rest g x, wf q s -> follow_top s rest -> follow_ok s rest -> nosel rest ->
       (forall F fl, g <= F -> g <= fl -> loop (pexpr F) fl q (erase s) rest = Ok x) ->
       forall f, g + size s <= f -> pexpr f q (flat s ++ rest) = Ok x.
   Definition PB (s : sp) : Prop :=
-    wfp s -> forall rest, follow_ok s rest -> forall F f, size s <= S F -> size s <= S f ->
+    wfp s -> forall rest, follow_ok s rest -> nosel rest -> forall F f, size s <= S F -> size s <= S f ->
       prim (pexpr F) f (flat s ++ rest) = Ok (erase s, rest).
   Definition Ppar (p : spar) : Prop :=
-    wfpar p -> forall rest, follow_lt 0 rest -> plain_next rest -> (pends p = true -> follow_name rest) ->
-      forall F, sizep p <= F -> param1 (pexpr F) (flatp p ++ rest) = Ok (erasep p, rest).
+    wfpar p -> forall rest, follow_lt 0 rest -> plain_next rest -> nosel rest -> (pends p = true -> follow_name rest) ->
+      forall F f, sizep p <= F -> sizep p <= f -> param1 (pexpr F) f (flatp p ++ rest) = Ok (erasep p, rest).
   Definition Ppars (ps : spars) : Prop :=
     forall w3, wfpars w3 ps -> all_triv w3 -> forall rp rest acc, cl rp = CRP ->
       forall F f, sizeps ps <= F -> sizeps ps <= f ->
       params_more (pexpr F) f acc (flatps ps ++ w3 ++ rp :: rest) = Ok (acc ++ eraseps ps, w3 ++ rp :: rest).
+  Definition Pss (ss : ssels) : Prop :=
+    wfss ss -> forall rest, nosel rest -> forall acc F f, sizess ss <= F -> sizess ss <= f ->
+      sels_loop (pexpr F) f acc (flatss ss ++ rest) = Ok (acc ++ erasess ss, rest).
+  Definition Psi (si : sidx) : Prop :=
+    forall w3, wfsi w3 si -> all_triv w3 -> forall rb rest acc, cl rb = CRB ->
+      forall F f, sizesi si <= F -> sizesi si <= f ->
+      subs_more (pexpr F) f acc (flatsi si ++ w3 ++ rb :: rest) = Ok (acc ++ erasesi si, w3 ++ rb :: rest).
 
   Definition primlike (s : sp) : bool := match s with SUn _ _ _ _ | SBin _ _ _ _ _ _ => false | _ => true end.
 
@@ -360,6 +448,7 @@ Section G.
       unfold solid, StParser.uop_of. rewrite H1. split; [discriminate | reflexivity].
     - split; [exact H|]. destruct H as (H & _). eexists bt, _. split; [cbn; reflexivity|]. unfold solid, StParser.uop_of. rewrite H. split; [discriminate | reflexivity].
     - split; [exact H|]. destruct H as (H & _). eexists t, _. split; [cbn; reflexivity|]. unfold solid, StParser.uop_of. rewrite H. split; [discriminate | reflexivity].
+    - split; [exact H|]. destruct H as (H & _). eexists t, _. split; [cbn [flat app]; reflexivity|]. unfold solid, StParser.uop_of. rewrite H. split; [discriminate | reflexivity].
     - split; [exact H|]. destruct H as (H & _). eexists t, _. split; [cbn; reflexivity|]. unfold solid, StParser.uop_of. rewrite H. split; [discriminate | reflexivity].
     - split; [exact H|]. destruct H as (H & _). eexists t, _. split; [cbn; reflexivity|]. unfold solid, StParser.uop_of. rewrite H. split; [discriminate | reflexivity].
     - split; [exact H|]. destruct H as (H & _). eexists tl, _. split; [cbn; reflexivity|]. unfold solid, StParser.uop_of. rewrite H. split; [discriminate | reflexivity].
@@ -367,28 +456,50 @@ Section G.
 
   Lemma A_of_B s : primlike s = true -> PB s -> PA s.
   Proof.
-    intros Hp HB q rest g x Hwf _ Hok Hl f Hf.
+    intros Hp HB q rest g x Hwf _ Hok Hns Hl f Hf.
     destruct (primlike_head s q rest Hp Hwf) as (Hwfp & t & r' & E & Hs & Hu).
     pose proof (size_pos s) as Hsz.
     destruct f as [|f]; [lia|].
     cbn [StParser.pexpr]. unfold StParser.unary. rewrite E, Hu. rewrite (skip_solid t r' Hs), <- E.
-    rewrite (HB Hwfp rest Hok f f) by lia. apply Hl; lia.
+    rewrite (HB Hwfp rest Hok Hns f f) by lia. apply Hl; lia.
   Qed.
+
+  Lemma nosel_at w t r : all_triv w -> solid t -> (match cl t with CDot | CLB => False | _ => True end) -> nosel (w ++ t :: r).
+  Proof. intros Hw Ht Hc. unfold nosel. rewrite (skip_app_triv w _ Hw), (skip_solid t r Ht). exact Hc. Qed.
 
   (* what follows a parameter inside a parameter list *)
   Lemma after_param r w3 rp rest : wfpars w3 r -> all_triv w3 -> cl rp = CRP ->
     let R := flatps r ++ w3 ++ rp :: rest in
-    follow_lt 0 R /\ plain_next R /\ (lead r w3 = [] -> follow_name R).
+    follow_lt 0 R /\ plain_next R /\ nosel R /\ (lead r w3 = [] -> follow_name R).
   Proof.
     intros Hr Hw3 Hrp. destruct r as [|w1 c w2 p r]; cbn [flatps lead app].
     - assert (Hs : solid rp) by (eapply solid_of_class; [exact Hrp | discriminate]).
-      unfold follow_lt, plain_next, follow_name. rewrite (skip_app_triv w3 _ Hw3), (skip_solid rp rest Hs).
+      unfold follow_lt, plain_next, follow_name, nosel. rewrite (skip_app_triv w3 _ Hw3), (skip_solid rp rest Hs).
       unfold StParser.bop_of. rewrite Hrp.
-      split; [exact I|]. split; [exact I|]. intros ->. cbn [app].
+      split; [exact I|]. split; [exact I|]. split; [exact I|]. intros ->. cbn [app].
       split; [reflexivity|]. unfold noafter. rewrite Hrp. reflexivity.
     - cbn in Hr. destruct Hr as (Hw1 & Hc & _).
       assert (Hs : solid c) by (eapply solid_of_class; [exact Hc | discriminate]).
-      unfold follow_lt, plain_next, follow_name. rewrite <- !app_assoc. rewrite (skip_app_triv w1 _ Hw1). cbn [app]. rewrite (skip_solid c _ Hs).
+      unfold follow_lt, plain_next, follow_name, nosel. rewrite <- !app_assoc. rewrite (skip_app_triv w1 _ Hw1). cbn [app]. rewrite (skip_solid c _ Hs).
+      unfold StParser.bop_of. rewrite Hc.
+      split; [exact I|]. split; [exact I|]. split; [exact I|]. intros ->. cbn [app].
+      split; [reflexivity|]. unfold noafter. rewrite Hc. reflexivity.
+  Qed.
+
+  (* ... and a subscript inside a subscript list *)
+  Lemma after_sub r w3 rb rest : wfsi w3 r -> all_triv w3 -> cl rb = CRB ->
+    let R := flatsi r ++ w3 ++ rb :: rest in
+    follow_lt 0 R /\ nosel R /\ (idx_lead r w3 = [] -> follow_name R).
+  Proof.
+    intros Hr Hw3 Hrb. destruct r as [|w1 c w2 e r]; cbn [flatsi idx_lead app].
+    - assert (Hs : solid rb) by (eapply solid_of_class; [exact Hrb | discriminate]).
+      unfold follow_lt, follow_name, nosel. rewrite (skip_app_triv w3 _ Hw3), (skip_solid rb rest Hs).
+      unfold StParser.bop_of. rewrite Hrb.
+      split; [exact I|]. split; [exact I|]. intros ->. cbn [app].
+      split; [reflexivity|]. unfold noafter. rewrite Hrb. reflexivity.
+    - cbn in Hr. destruct Hr as (Hw1 & Hc & _).
+      assert (Hs : solid c) by (eapply solid_of_class; [exact Hc | discriminate]).
+      unfold follow_lt, follow_name, nosel. rewrite <- !app_assoc. rewrite (skip_app_triv w1 _ Hw1). cbn [app]. rewrite (skip_solid c _ Hs).
       unfold StParser.bop_of. rewrite Hc.
       split; [exact I|]. split; [exact I|]. intros ->. cbn [app].
       split; [reflexivity|]. unfold noafter. rewrite Hc. reflexivity.
@@ -397,34 +508,61 @@ Section G.
   Lemma ident_at t r : cl t = CId -> ident (t :: r) = Some (txt t, r).
   Proof. intro H. unfold StParser.ident. rewrite H. reflexivity. Qed.
 
-  Lemma main : (forall s, PA s /\ PB s) /\ (forall p, Ppar p) /\ (forall ps, Ppars ps).
+  (* an expression parsed as a whole (level 0), from its own theorem *)
+  Lemma whole (e : sp) : PA e -> forall rest F, wf 0 e -> follow_lt 0 rest -> follow_ok e rest -> nosel rest -> 1 + size e <= F ->
+    pexpr F 0 (flat e ++ rest) = Ok (erase e, rest).
   Proof.
-    apply sp_mutind with (P := fun s => PA s /\ PB s) (P0 := Ppar) (P1 := Ppars).
+    intros IHe rest F Hwf Hfl Hok Hns HF. apply (IHe 0 rest 1 (erase e, rest) Hwf); try assumption.
+    - unfold follow_top. destruct (top_lvl e); [|exact I]. unfold follow_lt in *.
+      destruct (skip rest) as [|t' r'']; [exact I|]. destruct (bop_of t') as [[lv' o']|]; [lia | exact I].
+    - intros F' fl _ Hfl'. destruct fl as [|fl]; [lia|]. apply loop_stop. exact Hfl.
+  Qed.
+
+  Lemma main : (forall s, PA s /\ PB s) /\ (forall p, Ppar p) /\ (forall ps, Ppars ps) /\ (forall ss, Pss ss) /\ (forall si, Psi si).
+  Proof.
+    apply sp_mutind with (P := fun s => PA s /\ PB s) (P0 := Ppar) (P1 := Ppars) (P2 := Pss) (P3 := Psi).
     - (* constant *)
       intros t k. assert (HB : PB (SConst t k)).
-      { intros H rest _ F f _ _. cbn in H. cbn [flat app StParser.prim erase]. rewrite H. reflexivity. }
+      { intros H rest _ _ F f _ _. cbn in H. cbn [flat app StParser.prim erase]. rewrite H. reflexivity. }
       split; [apply A_of_B; [reflexivity | exact HB] | exact HB].
     - (* signed constant *)
       intros sg d neg. assert (HB : PB (SSigned sg d neg)).
-      { intros (H1 & H2) rest _ F f _ _. cbn [flat app StParser.prim erase]. rewrite H1.
+      { intros (H1 & H2) rest _ _ F f _ _. cbn [flat app StParser.prim erase]. rewrite H1.
         destruct neg; rewrite H2; reflexivity. }
       split; [apply A_of_B; [reflexivity | exact HB] | exact HB].
     - (* BOOL#TRUE / BOOL#FALSE *)
       intros bt hs v b. assert (HB : PB (SBool bt hs v b)).
-      { intros (H1 & H2 & H3) rest _ F f _ _. cbn [flat app StParser.prim erase]. rewrite H1, H2, H3.
+      { intros (H1 & H2 & H3) rest _ _ F f _ _. cbn [flat app StParser.prim erase]. rewrite H1, H2, H3.
         destruct b; reflexivity. }
       split; [apply A_of_B; [reflexivity | exact HB] | exact HB].
     - (* identifier *)
       intros t w. assert (HB : PB (SName t w)).
-      { intros (Ht & Hw) rest Hok F f _ _. destruct (Hok eq_refl) as (Hsk & Hn).
+      { intros (Ht & Hw) rest Hok _ F f _ _. destruct (Hok eq_refl) as (Hsk & Hn).
         cbn [flat app StParser.prim erase]. rewrite Ht.
         unfold StParser.call_tail, StParser.next_is. rewrite (skip_app_triv w rest Hw), Hsk.
         destruct rest as [|n r']; [reflexivity|]. unfold noafter in Hn.
         destruct (cl n) eqn:En; try discriminate; cbn; try reflexivity. }
       split; [apply A_of_B; [reflexivity | exact HB] | exact HB].
+    - (* variable with selectors *)
+      intros t ss IHss. assert (HB : PB (SVar t ss)).
+      { intros (Ht & Hss & Hsel) rest _ Hns F f HF Hf. cbn [size] in HF, Hf.
+        cbn [flat app StParser.prim erase]. rewrite Ht.
+        (* the first selector decides: no call, no plain identifier *)
+        assert (Hhead : exists d r0, skip (flatss ss ++ rest) = d :: r0 /\ (cl d = CDot \/ cl d = CLB)).
+        { destruct ss as [|sw1 dot sw2 id r0|sw1 lb sw2 e0 more sw3 rb r0]; [discriminate Hsel| |]; cbn [flatss wfss] in *.
+          - destruct Hss as (Hw1 & Hdot & _). rewrite <- app_assoc. cbn [app]. rewrite (skip_app_triv sw1 _ Hw1).
+            rewrite skip_solid by (eapply solid_of_class; [exact Hdot | discriminate]). eexists _, _. split; [reflexivity | left; exact Hdot].
+          - destruct Hss as (Hw1 & Hlb & _). rewrite <- app_assoc. cbn [app]. rewrite (skip_app_triv sw1 _ Hw1).
+            rewrite skip_solid by (eapply solid_of_class; [exact Hlb | discriminate]). eexists _, _. split; [reflexivity | right; exact Hlb]. }
+        destruct Hhead as (d & r0 & Hsk & Hd).
+        unfold StParser.call_tail, StParser.next_is. rewrite Hsk.
+        assert (E1 : is_lp (cl d) = false) by (destruct Hd as [E|E]; rewrite E; reflexivity). rewrite E1.
+        rewrite (IHss Hss rest Hns [] F f) by lia.
+        destruct Hd as [E|E]; rewrite E; reflexivity. }
+      split; [apply A_of_B; [reflexivity | exact HB] | exact HB].
     - (* call without parameters *)
       intros t w1 lp w2 rp. assert (HB : PB (SCall0 t w1 lp w2 rp)).
-      { intros (Ht & Hw1 & Hlp & Hw2 & Hrp) rest _ F f HF _. cbn [size] in HF.
+      { intros (Ht & Hw1 & Hlp & Hw2 & Hrp) rest _ _ F f HF _. cbn [size] in HF.
         assert (Hsl : solid lp) by (eapply solid_of_class; [exact Hlp | discriminate]).
         assert (Hsr : solid rp) by (eapply solid_of_class; [exact Hrp | discriminate]).
         cbn [flat app StParser.prim erase]. rewrite Ht. unfold StParser.call_tail.
@@ -440,18 +578,18 @@ Section G.
       split; [apply A_of_B; [reflexivity | exact HB] | exact HB].
     - (* call with parameters *)
       intros t w1 lp w2 p IHp ps IHps w3 rp. assert (HB : PB (SCallN t w1 lp w2 p ps w3 rp)).
-      { intros (Ht & Hw1 & Hlp & Hw2 & Hwp & Hwps & Hw3 & Hrp & Hend) rest _ F f HF Hf. cbn [size] in HF, Hf.
+      { intros (Ht & Hw1 & Hlp & Hw2 & Hwp & Hwps & Hw3 & Hrp & Hend) rest _ _ F f HF Hf. cbn [size] in HF, Hf.
         assert (Hsl : solid lp) by (eapply solid_of_class; [exact Hlp | discriminate]).
         assert (Hsr : solid rp) by (eapply solid_of_class; [exact Hrp | discriminate]).
         cbn [flat app StParser.prim erase]. rewrite Ht. unfold StParser.call_tail.
         rewrite <- !app_assoc. cbn [app]. rewrite (next_is_at _ w1 lp _ Hw1 Hsl) by (rewrite Hlp; reflexivity).
         rewrite <- !app_assoc. rewrite (skip_app_triv w2 _ Hw2). cbn [app].
-        destruct (after_param ps w3 rp rest Hwps Hw3 Hrp) as (Hf1 & Hf2 & Hf3).
-        assert (Hpar : param1 (pexpr F) (flatp p ++ flatps ps ++ w3 ++ rp :: rest) = Ok (erasep p, flatps ps ++ w3 ++ rp :: rest)).
-        { apply IHp; try assumption; [|lia]. intro He. apply Hf3. apply Hend. exact He. }
+        destruct (after_param ps w3 rp rest Hwps Hw3 Hrp) as (Hf1 & Hf2 & Hfn & Hf3).
+        assert (Hpar : param1 (pexpr F) f (flatp p ++ flatps ps ++ w3 ++ rp :: rest) = Ok (erasep p, flatps ps ++ w3 ++ rp :: rest)).
+        { apply IHp; try assumption; try lia. intro He. apply Hf3. apply Hend. exact He. }
         (* the parameter starts with a token that is not trivia *)
         assert (Hsk : skip (flatp p ++ flatps ps ++ w3 ++ rp :: rest) = flatp p ++ flatps ps ++ w3 ++ rp :: rest).
-        { destruct p as [e|n pw1 a pw2 e|ng n pw1 a pw2 v]; cbn [flatp]; cbn in Hwp.
+        { destruct p as [e|n pw1 a pw2 e|ng n pw1 a pw2 v vs]; cbn [flatp]; cbn in Hwp.
           - apply (flat_skip e 0). exact Hwp.
           - destruct Hwp as (Hn & _). cbn [app]. apply skip_solid. eapply solid_of_class; [exact Hn | discriminate].
           - destruct Hwp as (Hng & Hn & _). destruct ng as [[nt nw]|]; cbn [ng_flat app].
@@ -463,33 +601,31 @@ Section G.
       split; [apply A_of_B; [reflexivity | exact HB] | exact HB].
     - (* parentheses *)
       intros tl w1 s [IH _] w2 tr. assert (HB : PB (SParen tl w1 s w2 tr)).
-      { intros (Htl & Htr & Hw1 & Hw2 & Hwf & Hend) rest _ F f HF _. cbn [size] in HF.
+      { intros (Htl & Htr & Hw1 & Hw2 & Hwf & Hend) rest _ _ F f HF _. cbn [size] in HF.
         assert (Hsr : solid tr) by (eapply solid_of_class; [exact Htr | discriminate]).
         assert (Hfl : follow_lt 0 (w2 ++ tr :: rest)).
         { unfold follow_lt. rewrite (skip_app_triv w2 _ Hw2), (skip_solid tr rest Hsr). unfold StParser.bop_of. rewrite Htr. exact I. }
         cbn [flat app StParser.prim erase]. rewrite Htl.
         rewrite <- !app_assoc. rewrite (skip_app_triv w1 _ Hw1). cbn [app].
         rewrite (flat_skip s 0 _ Hwf).
-        rewrite (IH 0 (w2 ++ tr :: rest) 1 (erase s, w2 ++ tr :: rest) Hwf).
+        rewrite (whole s IH (w2 ++ tr :: rest) F Hwf Hfl).
         + rewrite (next_is_at _ w2 tr rest Hw2 Hsr) by (rewrite Htr; reflexivity). reflexivity.
-        + unfold follow_top. destruct (top_lvl s); [|exact I]. unfold follow_lt in *.
-          destruct (skip (w2 ++ tr :: rest)) as [|t' r']; [exact I|]. destruct (bop_of t') as [[lv' o']|]; [lia | exact I].
         + intro He. rewrite (Hend He). cbn [app]. split; [apply skip_solid; exact Hsr|]. unfold noafter. rewrite Htr. reflexivity.
-        + intros F' fl _ Hfl'. destruct fl as [|fl]; [lia|]. apply loop_stop. exact Hfl.
+        + apply nosel_at; [exact Hw2 | exact Hsr | rewrite Htr; exact I].
         + lia. }
       split; [apply A_of_B; [reflexivity | exact HB] | exact HB].
     - (* unary operator *)
       intros t o w s [_ IHB]. split; [|intros []].
-      intros q rest g x Hwf _ Hok Hl f Hf. cbn [wf] in Hwf. destruct Hwf as (Hu & Hw & Hs).
+      intros q rest g x Hwf _ Hok Hns Hl f Hf. cbn [wf] in Hwf. destruct Hwf as (Hu & Hw & Hs).
       assert (Hp : wfp s) by exact Hs.
       destruct f as [|f]; [cbn [size] in Hf; lia|]. cbn [size] in Hf.
       cbn [StParser.pexpr flat app]. unfold StParser.unary. rewrite Hu.
       rewrite <- app_assoc. rewrite (skip_app_triv w _ Hw). rewrite (flat_skip_wfp s rest Hp).
-      rewrite (IHB Hp rest) by (try lia; intro He; apply Hok; exact He).
+      rewrite (IHB Hp rest (fun He => Hok He) Hns) by lia.
       cbn [erase] in Hl. apply Hl; lia.
     - (* infix operator *)
       intros t o l [IHl _] w1 w2 r [IHr _]. split; [|intros []].
-      intros q rest g x Hwf Hfol Hok Hloop f Hf. cbn [wf] in Hwf.
+      intros q rest g x Hwf Hfol Hok Hns Hloop f Hf. cbn [wf] in Hwf.
       destruct Hwf as (Hb & Hw1 & Hw2 & Hq & Hwl & Hwr & Hend).
       unfold follow_top in Hfol. cbn [top_lvl] in Hfol. cbn [size] in Hf.
       pose proof (bop_solid _ _ Hb) as Hs.
@@ -500,6 +636,7 @@ Section G.
           unfold follow_lt in *. destruct (skip rest) as [|t' r']; [exact I|].
           destruct (bop_of t') as [[lv' o']|]; [lia | exact I].
         - intro He. apply Hok. cbn. exact He.
+        - exact Hns.
         - intros F' fl _ Hfl. destruct fl as [|fl]; [lia|]. apply loop_stop. exact Hfol.
         - exact HF. }
       cbn [flat]. rewrite <- !app_assoc. cbn [app]. rewrite <- app_assoc.
@@ -509,6 +646,7 @@ Section G.
         unfold follow_lt. rewrite (skip_app_triv w1 _ Hw1), (skip_solid t _ Hs), Hb. lia.
       + intro He. rewrite (Hend He). cbn [app]. split; [apply skip_solid; exact Hs|].
         unfold noafter. unfold StParser.bop_of in Hb. destruct (cl t); try discriminate; reflexivity.
+      + apply nosel_at; [exact Hw1 | exact Hs|]. unfold StParser.bop_of in Hb. destruct (cl t); try discriminate; exact I.
       + intros F fl HF Hfl. destruct fl as [|fl]; [lia|]. cbn [StParser.loop].
         rewrite (skip_app_triv w1 _ Hw1), (skip_solid t _ Hs), Hb.
         destruct (Nat.leb_spec q (lvl o)); [|lia].
@@ -516,19 +654,13 @@ Section G.
         rewrite Hr by lia. cbn [erase] in Hloop. apply Hloop; lia.
       + lia.
     - (* positional parameter *)
-      intros e [IHe _] Hwf rest Hfl Hpn Hend F HF. cbn [wfpar] in Hwf. cbn [sizep] in HF. cbn [flatp erasep].
+      intros e [IHe _] Hwf rest Hfl Hpn Hns Hend F f HF Hf. cbn [wfpar] in Hwf. cbn [sizep] in HF, Hf. cbn [flatp erasep].
       unfold StParser.param1.
       pose proof (head_ident_next e 0 rest Hwf Hpn) as Hid.
       pose proof (head_not_next e 0 rest Hwf Hpn) as Hnot.
       destruct (flat_solid e 0 rest Hwf) as (t & r' & E & Hs).
-      assert (Hexp : pexpr F 0 (flat e ++ rest) = Ok (erase e, rest)).
-      { apply (IHe 0 rest 1 (erase e, rest) Hwf).
-        - unfold follow_top. destruct (top_lvl e); [|exact I]. unfold follow_lt in *.
-          destruct (skip rest) as [|t' r'']; [exact I|]. destruct (bop_of t') as [[lv' o']|]; [lia | exact I].
-        - exact Hend.
-        - intros F' fl _ Hfl'. destruct fl as [|fl]; [lia|]. apply loop_stop. exact Hfl.
-        - lia. }
-      assert (Hout : param_out (flat e ++ rest) = None).
+      assert (Hexp : pexpr F 0 (flat e ++ rest) = Ok (erase e, rest)) by (apply (whole e IHe); try assumption; lia).
+      assert (Hout : param_out (pexpr F) f (flat e ++ rest) = Fail).
       { rewrite E in *. unfold StParser.param_out. destruct (cl t) eqn:Ec.
         all: try (rewrite (skip_solid t r' Hs); unfold StParser.ident at 1; rewrite Ec; reflexivity).
         - (* identifier first *)
@@ -551,7 +683,7 @@ Section G.
       + rewrite Hin. rewrite (flat_skip e 0 rest Hwf), Hexp. reflexivity.
       + rewrite (flat_skip e 0 rest Hwf), Hexp. reflexivity.
     - (* named parameter *)
-      intros n w1 a w2 e [IHe _] Hwf rest Hfl Hpn Hend F HF. cbn [wfpar] in Hwf. cbn [sizep] in HF.
+      intros n w1 a w2 e [IHe _] Hwf rest Hfl Hpn Hns Hend F f HF Hf. cbn [wfpar] in Hwf. cbn [sizep] in HF, Hf.
       destruct Hwf as (Hn & Hw1 & Ha & Hw2 & Hwf).
       assert (Hsa : solid a) by (eapply solid_of_class; [exact Ha | discriminate]).
       assert (Hsn : solid n) by (eapply solid_of_class; [exact Hn | discriminate]).
@@ -562,29 +694,27 @@ Section G.
       unfold StParser.param_in. rewrite (ident_at n _ Hn).
       rewrite (next_is_at _ w1 a _ Hw1 Hsa) by (rewrite Ha; reflexivity).
       rewrite <- app_assoc. rewrite (skip_app_triv w2 _ Hw2). rewrite (flat_skip e 0 rest Hwf).
-      rewrite (IHe 0 rest 1 (erase e, rest) Hwf); [reflexivity| | | |lia].
-      + unfold follow_top. destruct (top_lvl e); [|exact I]. unfold follow_lt in *.
-        destruct (skip rest) as [|t' r'']; [exact I|]. destruct (bop_of t') as [[lv' o']|]; [lia | exact I].
-      + exact Hend.
-      + intros F' fl _ Hfl'. destruct fl as [|fl]; [lia|]. apply loop_stop. exact Hfl.
+      rewrite (whole e IHe rest F Hwf Hfl Hend Hns) by lia. reflexivity.
     - (* output parameter *)
-      intros ng n w1 a w2 v Hwf rest _ _ _ F _. cbn [wfpar] in Hwf.
-      destruct Hwf as (Hng & Hn & Hw1 & Ha & Hw2 & Hv).
+      intros ng n w1 a w2 v vs IHvs Hwf rest _ _ Hns _ F f HF Hf. cbn [wfpar] in Hwf. cbn [sizep] in HF, Hf.
+      destruct Hwf as (Hng & Hn & Hw1 & Ha & Hw2 & Hv & Hvs).
       assert (Hsa : solid a) by (eapply solid_of_class; [exact Ha | discriminate]).
       assert (Hsn : solid n) by (eapply solid_of_class; [exact Hn | discriminate]).
       assert (Hsv : solid v) by (eapply solid_of_class; [exact Hv | discriminate]).
       cbn [erasep]. unfold StParser.param1.
-      replace (flatp (SPOut ng n w1 a w2 v) ++ rest) with (ng_flat ng ++ n :: w1 ++ a :: w2 ++ v :: rest)
+      replace (flatp (SPOut ng n w1 a w2 v vs) ++ rest) with (ng_flat ng ++ n :: w1 ++ a :: w2 ++ v :: flatss vs ++ rest)
         by (cbn [flatp]; repeat (rewrite <- app_assoc; cbn [app]); reflexivity).
-      assert (E : param_out (ng_flat ng ++ n :: w1 ++ a :: w2 ++ v :: rest) =
-                  Some (POut (match ng with Some _ => true | None => false end) (txt n) (txt v), rest)).
+      assert (E : param_out (pexpr F) f (ng_flat ng ++ n :: w1 ++ a :: w2 ++ v :: flatss vs ++ rest) =
+                  Ok (POut (match ng with Some _ => true | None => false end) (txt n) (txt v) (erasess vs), rest)).
       { destruct ng as [[nt nw]|]; cbn [ng_flat app]; unfold StParser.param_out.
         - destruct Hng as (Hnt & Hnw). rewrite Hnt. rewrite (skip_app_triv nw _ Hnw), (skip_solid n _ Hsn), (ident_at n _ Hn).
           rewrite (next_is_at _ w1 a _ Hw1 Hsa) by (rewrite Ha; reflexivity).
-          rewrite (skip_app_triv w2 _ Hw2). cbn [app]. rewrite (skip_solid v _ Hsv), (ident_at v _ Hv). reflexivity.
+          rewrite (skip_app_triv w2 _ Hw2). rewrite (skip_solid v _ Hsv). unfold StParser.pvariable. rewrite (ident_at v _ Hv).
+          rewrite (IHvs Hvs rest Hns [] F f) by lia. reflexivity.
         - rewrite Hn. rewrite (skip_solid n _ Hsn), (ident_at n _ Hn).
           rewrite (next_is_at _ w1 a _ Hw1 Hsa) by (rewrite Ha; reflexivity).
-          rewrite (skip_app_triv w2 _ Hw2). cbn [app]. rewrite (skip_solid v _ Hsv), (ident_at v _ Hv). reflexivity. }
+          rewrite (skip_app_triv w2 _ Hw2). rewrite (skip_solid v _ Hsv). unfold StParser.pvariable. rewrite (ident_at v _ Hv).
+          rewrite (IHvs Hvs rest Hns [] F f) by lia. reflexivity. }
       rewrite E. reflexivity.
     - (* end of the parameter list *)
       intros w3 _ Hw3 rp rest acc Hrp F f _ Hf. cbn [sizeps] in Hf. destruct f as [|f]; [lia|].
@@ -598,26 +728,71 @@ Section G.
       destruct f as [|f]; [lia|]. cbn [flatps eraseps StParser.params_more].
       rewrite <- !app_assoc. cbn [app]. rewrite (next_is_at _ w1 c _ Hw1 Hsc) by (rewrite Hc; reflexivity).
       rewrite <- !app_assoc. rewrite (skip_app_triv w2 _ Hw2). cbn [app].
-      destruct (after_param r w3 rp rest Hwr Hw3 Hrp) as (Hf1 & Hf2 & Hf3).
+      destruct (after_param r w3 rp rest Hwr Hw3 Hrp) as (Hf1 & Hf2 & Hfn & Hf3).
       assert (Hsk : skip (flatp p ++ flatps r ++ w3 ++ rp :: rest) = flatp p ++ flatps r ++ w3 ++ rp :: rest).
-      { destruct p as [e|n pw1 a pw2 e|ng n pw1 a pw2 v]; cbn [flatp]; cbn in Hwp.
+      { destruct p as [e|n pw1 a pw2 e|ng n pw1 a pw2 v vs]; cbn [flatp]; cbn in Hwp.
         - apply (flat_skip e 0). exact Hwp.
         - destruct Hwp as (Hn & _). cbn [app]. apply skip_solid. eapply solid_of_class; [exact Hn | discriminate].
         - destruct Hwp as (Hng & Hn & _). destruct ng as [[nt nw]|]; cbn [ng_flat app].
           + destruct Hng as (Hnt & _). apply skip_solid. eapply solid_of_class; [exact Hnt | discriminate].
           + apply skip_solid. eapply solid_of_class; [exact Hn | discriminate]. }
-      rewrite Hsk. rewrite (IHp Hwp _ Hf1 Hf2) by (try lia; intro He; apply Hf3; apply Hend; exact He).
+      rewrite Hsk. rewrite (IHp Hwp _ Hf1 Hf2 Hfn (fun He => Hf3 (Hend He)) F f) by lia.
       rewrite (IHr w3 Hwr Hw3 rp rest (acc ++ [erasep p]) Hrp F f) by lia.
       rewrite <- app_assoc. reflexivity.
+    - (* no further selector *)
+      intros _ rest Hns acc F f _ Hf. cbn [sizess] in Hf. destruct f as [|f]; [lia|].
+      cbn [flatss erasess app StParser.sels_loop]. unfold nosel in Hns. rewrite app_nil_r.
+      destruct (skip rest) as [|t r]; [reflexivity|]. destruct (cl t); try contradiction; reflexivity.
+    - (* .field *)
+      intros w1 dot w2 id r IHr (Hw1 & Hdot & Hw2 & Hid & Hr) rest Hns acc F f HF Hf. cbn [sizess] in HF, Hf.
+      destruct f as [|f]; [lia|].
+      assert (Hsd : solid dot) by (eapply solid_of_class; [exact Hdot | discriminate]).
+      assert (Hsi : solid id) by (eapply solid_of_class; [exact Hid | discriminate]).
+      cbn [flatss erasess StParser.sels_loop].
+      replace ((w1 ++ dot :: w2 ++ id :: flatss r) ++ rest) with (w1 ++ dot :: w2 ++ id :: flatss r ++ rest)
+        by (repeat (rewrite <- app_assoc; cbn [app]); reflexivity).
+      rewrite (skip_app_triv w1 _ Hw1), (skip_solid dot _ Hsd), Hdot.
+      rewrite (skip_app_triv w2 _ Hw2). rewrite (skip_solid id _ Hsi), (ident_at id _ Hid).
+      rewrite (IHr Hr rest Hns (acc ++ [SField (txt id)]) F f) by lia. rewrite <- app_assoc. reflexivity.
+    - (* [subscripts] *)
+      intros w1 lb w2 e [IHe _] more IHm w3 rb r IHr (Hw1 & Hlb & Hw2 & He & Hm & Hw3 & Hrb & Hend & Hr) rest Hns acc F f HF Hf.
+      cbn [sizess] in HF, Hf. destruct f as [|f]; [lia|].
+      assert (Hsl : solid lb) by (eapply solid_of_class; [exact Hlb | discriminate]).
+      assert (Hsr : solid rb) by (eapply solid_of_class; [exact Hrb | discriminate]).
+      cbn [flatss erasess StParser.sels_loop].
+      replace ((w1 ++ lb :: w2 ++ flat e ++ flatsi more ++ w3 ++ rb :: flatss r) ++ rest)
+        with (w1 ++ lb :: w2 ++ flat e ++ flatsi more ++ w3 ++ rb :: flatss r ++ rest)
+        by (repeat (rewrite <- app_assoc; cbn [app]); reflexivity).
+      rewrite (skip_app_triv w1 _ Hw1), (skip_solid lb _ Hsl), Hlb.
+      unfold StParser.subs. rewrite (skip_app_triv w2 _ Hw2), (flat_skip e 0 _ He).
+      destruct (after_sub more w3 rb (flatss r ++ rest) Hm Hw3 Hrb) as (Hf1 & Hfn & Hf3).
+      rewrite (whole e IHe _ F He Hf1 (fun Hx => Hf3 (Hend Hx)) Hfn) by lia.
+      rewrite (IHm w3 Hm Hw3 rb (flatss r ++ rest) [erase e] Hrb F f) by lia.
+      rewrite (next_is_at _ w3 rb _ Hw3 Hsr) by (rewrite Hrb; reflexivity).
+      cbn [app]. rewrite (IHr Hr rest Hns (acc ++ [SIndex (erase e :: erasesi more)]) F f) by lia. rewrite <- app_assoc. reflexivity.
+    - (* end of the subscripts *)
+      intros w3 _ Hw3 rb rest acc Hrb F f _ Hf. cbn [sizesi] in Hf. destruct f as [|f]; [lia|].
+      assert (Hsr : solid rb) by (eapply solid_of_class; [exact Hrb | discriminate]).
+      cbn [flatsi erasesi app StParser.subs_more]. rewrite (next_is_not _ w3 rb rest Hw3 Hsr) by (rewrite Hrb; reflexivity).
+      rewrite app_nil_r. reflexivity.
+    - (* one more subscript *)
+      intros w1 c w2 e [IHe _] r IHr w3 (Hw1 & Hc & Hw2 & He & Hr & Hend) Hw3 rb rest acc Hrb F f HF Hf. cbn [sizesi] in HF, Hf.
+      assert (Hsc : solid c) by (eapply solid_of_class; [exact Hc | discriminate]).
+      destruct f as [|f]; [lia|]. cbn [flatsi erasesi StParser.subs_more].
+      rewrite <- !app_assoc. cbn [app]. rewrite (next_is_at _ w1 c _ Hw1 Hsc) by (rewrite Hc; reflexivity).
+      rewrite <- !app_assoc. rewrite (skip_app_triv w2 _ Hw2), (flat_skip e 0 _ He).
+      destruct (after_sub r w3 rb rest Hr Hw3 Hrb) as (Hf1 & Hfn & Hf3).
+      rewrite (whole e IHe _ F He Hf1 (fun Hx => Hf3 (Hend Hx)) Hfn) by lia.
+      rewrite (IHr w3 Hr Hw3 rb rest (acc ++ [erase e]) Hrb F f) by lia. rewrite <- app_assoc. reflexivity.
   Qed.
 
   (* every well-formed spelling is parsed to its meaning, leaving exactly the rest; the number of nodes is enough fuel *)
   Theorem pexpr_spelled : forall s q rest f,
-    wf q s -> follow_lt q rest -> follow_ok s rest -> 1 + size s <= f ->
+    wf q s -> follow_lt q rest -> follow_ok s rest -> nosel rest -> 1 + size s <= f ->
     pexpr f q (flat s ++ rest) = Ok (erase s, rest).
   Proof.
-    intros s q rest f Hwf Hfol Hok Hf. destruct main as [M _]. destruct (M s) as [MA _].
-    apply (MA q rest 1); [exact Hwf | | exact Hok | | exact Hf].
+    intros s q rest f Hwf Hfol Hok Hns Hf. destruct main as [M _]. destruct (M s) as [MA _].
+    apply (MA q rest 1); [exact Hwf | | exact Hok | exact Hns | | exact Hf].
     - unfold follow_top. destruct s; cbn [top_lvl]; try exact I. cbn in Hwf.
       unfold follow_lt in *. destruct (skip rest) as [|t' r']; [exact I|].
       destruct (bop_of t') as [[lv' o']|]; [lia | exact I].
@@ -627,20 +802,22 @@ Section G.
   Theorem params_spelled : forall ps w3 rp rest acc F f,
     wfpars w3 ps -> all_triv w3 -> cl rp = CRP -> sizeps ps <= F -> sizeps ps <= f ->
     params_more (pexpr F) f acc (flatps ps ++ w3 ++ rp :: rest) = Ok (acc ++ eraseps ps, w3 ++ rp :: rest).
-  Proof. intros. destruct main as (_ & _ & M). apply M; assumption. Qed.
+  Proof. intros. destruct main as (_ & _ & M & _). apply M; assumption. Qed.
 
-  Theorem param_spelled : forall p rest F,
-    wfpar p -> follow_lt 0 rest -> plain_next rest -> (pends p = true -> follow_name rest) -> sizep p <= F ->
-    param1 (pexpr F) (flatp p ++ rest) = Ok (erasep p, rest).
-  Proof. intros. destruct main as (_ & M & _). apply M; assumption. Qed.
+  Theorem sels_spelled : forall ss rest acc F f,
+    wfss ss -> nosel rest -> sizess ss <= F -> sizess ss <= f ->
+    sels_loop (pexpr F) f acc (flatss ss ++ rest) = Ok (acc ++ erasess ss, rest).
+  Proof. intros. destruct main as (_ & _ & _ & M & _). apply M; assumption. Qed.
 
   (* ---- the number of nodes is bounded by the number of tokens ---- *)
   Lemma size_bound :
     (forall s, size s <= 3 * length (flat s)) /\
     (forall p, sizep p <= 3 * length (flatp p) + 1) /\
-    (forall ps, sizeps ps <= 3 * length (flatps ps) + 1).
+    (forall ps, sizeps ps <= 3 * length (flatps ps) + 1) /\
+    (forall ss, sizess ss <= 3 * length (flatss ss) + 1) /\
+    (forall si, sizesi si <= 3 * length (flatsi si) + 1).
   Proof.
-    apply sp_mutind; intros; cbn [size sizep sizeps flat flatp flatps];
+    apply sp_mutind; intros; cbn [size sizep sizeps sizess sizesi flat flatp flatps flatss flatsi];
       repeat (rewrite app_length || cbn [length]); try lia.
   Qed.
 
@@ -695,16 +872,23 @@ Section G.
   Lemma wf_scoped :
     (forall s, (forall q, wf q s -> scoped (flat s)) /\ (wfp s -> scoped (flat s))) /\
     (forall p, wfpar p -> scoped (flatp p)) /\
-    (forall ps, forall w3, wfpars w3 ps -> scoped (flatps ps)).
+    (forall ps, forall w3, wfpars w3 ps -> scoped (flatps ps)) /\
+    (forall ss, wfss ss -> scoped (flatss ss)) /\
+    (forall si, forall w3, wfsi w3 si -> scoped (flatsi si)).
   Proof.
     apply sp_mutind with (P := fun s => (forall q, wf q s -> scoped (flat s)) /\ (wfp s -> scoped (flat s)))
-                         (P0 := fun p => wfpar p -> scoped (flatp p)) (P1 := fun ps => forall w3, wfpars w3 ps -> scoped (flatps ps)).
+                         (P0 := fun p => wfpar p -> scoped (flatp p)) (P1 := fun ps => forall w3, wfpars w3 ps -> scoped (flatps ps))
+                         (P2 := fun ss => wfss ss -> scoped (flatss ss)) (P3 := fun si => forall w3, wfsi w3 si -> scoped (flatsi si)).
     - intros t k. split; [intros q H | intros H]; cbn in H; cbn [flat]; apply scoped_tok; rewrite H; reflexivity.
     - intros sg d neg. split; [intros q (-> & H1 & H2) | intros (H1 & H2)]; cbn [flat].
       + sc.
       + destruct neg; sc.
     - intros bt hs v b. split; [intros q (H1 & H2 & H3) | intros (H1 & H2 & H3)]; cbn [flat]; eapply scoped_bool; eauto using scoped_nil.
     - intros t w. split; [intros q (H1 & H2) | intros (H1 & H2)]; cbn [flat]; sc.
+    - intros t ss IHss.
+      assert (G : wf 0 (SVar t ss) -> scoped (flat (SVar t ss))).
+      { intros (H1 & H2 & _). cbn [flat]. specialize (IHss H2). sc. }
+      split; [intros q H; apply G; exact H | exact G].
     - intros t w1 lp w2 rp. split; [intros q (H1 & H2 & H3 & H4 & H5) | intros (H1 & H2 & H3 & H4 & H5)]; cbn [flat]; sc.
     - intros t w1 lp w2 p IHp ps IHps w3 rp.
       assert (G : wf 0 (SCallN t w1 lp w2 p ps w3 rp) -> scoped (flat (SCallN t w1 lp w2 p ps w3 rp))).
@@ -720,11 +904,17 @@ Section G.
       specialize (IHl _ H5). specialize (IHr _ H6). sc.
     - intros e [IH _] H. cbn [flatp]. apply (IH 0). exact H.
     - intros n w1 a w2 e [IH _] (H1 & H2 & H3 & H4 & H5). cbn [flatp]. specialize (IH 0 H5). sc.
-    - intros ng n w1 a w2 v (H0 & H1 & H2 & H3 & H4 & H5). cbn [flatp].
+    - intros ng n w1 a w2 v vs IHvs (H0 & H1 & H2 & H3 & H4 & H5 & H6). cbn [flatp]. specialize (IHvs H6).
       destruct ng as [[nt nw]|]; cbn [ng_flat app].
       + destruct H0 as (Hn & Hw). sc.
       + sc.
     - intros w3 _. apply scoped_nil.
     - intros w1 c w2 p IHp r IHr w3 (H1 & H2 & H3 & H4 & H5 & _). cbn [flatps]. specialize (IHp H4). specialize (IHr w3 H5). sc.
+    - intros _. apply scoped_nil.
+    - intros w1 dot w2 id r IHr (H1 & H2 & H3 & H4 & H5). cbn [flatss]. specialize (IHr H5). sc.
+    - intros w1 lb w2 e [IHe _] more IHm w3 rb r IHr (H1 & H2 & H3 & H4 & H5 & H6 & H7 & _ & H9). cbn [flatss].
+      specialize (IHe 0 H4). specialize (IHm w3 H5). specialize (IHr H9). sc.
+    - intros w3 _. apply scoped_nil.
+    - intros w1 c w2 e [IHe _] r IHr w3 (H1 & H2 & H3 & H4 & H5 & _). cbn [flatsi]. specialize (IHe 0 H4). specialize (IHr w3 H5). sc.
   Qed.
 End G.
